@@ -89,6 +89,8 @@ class ExprMixin:
                     return lv2
                 raise Unsupported(f"cannot lift python object {v.z!r} to {ty}", node)
             return self.coerce(lv, ty, node)
+        if isinstance(ty, T.Atom) and v.ty is T.STR and ty.name in self.str_atoms:
+            return V(ty, self.str_atoms[ty.name](v.z))          # text of a path: an abstract path value
         if isinstance(ty, T.Atom) and v.ty is T.STR and z3.is_string_value(v.z):
             return V(ty, self.intern(ty, v.z.as_string()))     # a literal naming an abstract value
         if isinstance(ty, T.Opt):
@@ -739,6 +741,9 @@ class ExprMixin:
                 if key is not None:
                     yield st, V(T.FUN, FunV("contract", key=key, self_v=base, name=attr))
                     return
+                if (t.name, attr) in self.method_rules:
+                    yield st, V(T.FUN, BoundBuiltin(base, attr, n.value))
+                    return
                 raise Unsupported(f"attribute {t.cls}.{attr} is not declared", n)
             kind, decl, info = f
             if kind == "field":
@@ -982,7 +987,15 @@ class ExprMixin:
         def rec(i, st, bound, guards):
             if i == len(gens):
                 for st2, vs in self.ev_list(elt_nodes, st, sink):
-                    yield bound, zand(*guards), vs, outer[0]
+                    # facts assumed while evaluating one element normally (e.g. "the key is present"): on the
+                    # normal path of the comprehension they hold for EVERY element
+                    base = len(outer[0].pc)
+                    extra = [f for f in st2.pc[base:]]
+                    o2 = outer[0]
+                    if st.mode != "spec" and bound and extra:
+                        o2 = o2.assume(z3.ForAll(bound, zand(*extra)) if not guards else
+                                       z3.ForAll(bound, z3.Implies(zand(*guards), zand(*extra))))
+                    yield bound, zand(*guards), vs, o2
                 return
             g = gens[i]
             if g.is_async:
@@ -1015,7 +1028,11 @@ class ExprMixin:
         yield from rec(0, st, [], [])
 
     def _comp_image(self, n, elts, st, sink):
-        res = list(self.comp_eval(n, elts, st, sink))
+        inner = []
+        res = list(self.comp_eval(n, elts, st, inner))
+        for est, exc in inner:
+            # an exception raised for some element leaves the comprehension: enclosing scope, no binder
+            sink.append((est.clone(env=st.env, binder=st.binder), exc))
         if len(res) != 1:
             raise Unsupported("comprehension body forks (conditional inside element expression)", n)
         return res[0]
@@ -1053,7 +1070,8 @@ class ExprMixin:
         bound, guard, (v,), st2 = self._comp_image(n, [n.elt], st, sink)
         stt = T.SetT(v.ty)
         y = v.ty.fresh("y")
-        yield st2.clone(env=st.env, binder=st.binder), V(stt, z3.Lambda([y], z3.Exists(bound, z3.And(guard, y == v.z))))
+        yield st2.clone(env=st.env, binder=st.binder), V(stt, z3.Lambda([y], z3.Exists(bound, z3.And(guard, y == v.z))),
+                                                         aux=("image", bound, guard, v))
 
     def ev_DictComp(self, n, st, sink):
         bound, guard, (k, v), st2 = self._comp_image(n, [n.key, n.value], st, sink)
